@@ -4128,3 +4128,46 @@ def c14_array_file_wiring():
             out.append(struct(tag + '.open-close', (opened == [['arr.txt', 'r']] and log == ['close']) if given_name else (not opened and not log), 'a name is opened for reading and closed; a file object is left open', fnr))
         return out
     return go()
+
+
+def c11_anscombe():
+    """Anscombe_Poisson_residual(model, data) per entry (model m > 0, data d > 0; x^p uninterpreted):
+         3/2 * ( (m^(2/3) - m^(-1/3)/9) - (d^(2/3) - d^(-1/3)/9) ) / m^(1/6)      -- positive where the model exceeds the data, as the linear residual;
+    with mask=c the entry is masked iff (m <= c and d <= c) or d == 0."""
+    oid = 'C11/Inference.py:Anscombe_Poisson_residual'
+    fn = 'dadi/Inference.py::Anscombe_Poisson_residual'
+
+    @guarded(oid, fn)
+    def go():
+        m, d, c = z3.Reals('m d cut')
+        hy = [m > 0, d > 0]
+        pw = uf('pow', 2)
+        q = lambda a, b: z3.Q(a, b)
+        want = q(3, 2) * ((pw(m, q(2, 3)) - pw(m, q(-1, 3)) / 9) - (pw(d, q(2, 3)) - pw(d, q(-1, 3)) / 9)) / pw(m, q(1, 6))
+        hy = hy + [pw(m, q(1, 6)) > 0]          # a positive base has a positive power (instance of the axiom used)
+        ex = Executor()
+        f = ex.func('dadi/Inference.py', 'Anscombe_Poisson_residual')
+        out = []
+        p = ex.run(f, [m, d], {}, base_pc=hy)
+        if len(p) != 1 or p[0].outcome != 'return' or not is_scalar(exact(p[0].value)):
+            out.append(struct(oid + '.formula', False, 'expected one returning path with a scalar: %r' % p[:2], fn, undecided=True))
+        else:
+            out.append(prove_eq(oid + '.formula', hy + list(p[0].pc), p[0].value, want, fn))
+        p = ex.run(f, [m, d], dict(mask=c), base_pc=hy)
+        ok = len(p) == 1 and p[0].outcome == 'return'
+        v = p[0].value if ok else None
+        inner = v
+        neg = False
+        if isinstance(inner, Tm) and inner.op == 'neg':
+            inner, neg = inner.args[0], True
+        okm = isinstance(inner, Tm) and 'masked_where' in inner.op and len(inner.args) == 2
+        if not okm:
+            out.append(struct(oid + '.mask', False, 'result is not masked_where(cond, residual): %s' % vrepr(v)[:200], fn))
+        else:
+            cond, val = inner.args
+            cond = cond if isinstance(cond, z3.ExprRef) else z3.BoolVal(bool(cond))
+            out.append(prove(oid + '.mask', hy + list(p[0].pc), cond == z3.Or(z3.And(m <= c, d <= c), d == 0), fn))
+            sval = -to_real(exact(val)) if neg else to_real(exact(val))
+            out.append(prove_eq(oid + '.masked-value', hy + list(p[0].pc), sval, want, fn))
+        return out
+    return go()
